@@ -398,6 +398,9 @@ class Incarnation:
             kw["vectorize"] = False
             if t.nblobs:
                 kw["blobs_dtype"] = "float64"
+        if c.get("ll_ret") and mode != "vector" and not t.nblobs:
+            t.ret = c["ll_ret"]
+            kw["log_likelihood"] = t.loglike_np
         if c.get("ll_args"):
             kw["log_likelihood"] = t.loglike_vec_args if mode == "vector" else t.loglike_args
             kw["log_likelihood_args"] = [1.0]
